@@ -195,6 +195,34 @@ struct F_strncmp {
     static constexpr char const* name = "strncmp";
     constexpr auto operator()(SArg const& p) const { return etl::strncmp(p.a, p.b, static_cast<etl::size_t>(p.n)); }
 };
+// strncmp on unterminated arrays of exactly n characters: reading the (n+1)-th character is out of bounds, which the
+// constant evaluator rejects (not-constant-evaluable) and ASan reports at run time
+template <int N>
+constexpr int strncmp_exact(SArg const& p)
+{
+    char xa[N ? N : 1]{};
+    char xb[N ? N : 1]{};
+    for (int i = 0; i < N; ++i) {
+        xa[i] = p.a[i];
+        xb[i] = p.b[i];
+    }
+    return etl::strncmp(xa, xb, static_cast<etl::size_t>(N));
+}
+struct F_strncmp_exact {
+    static constexpr char const* name = "strncmp[unterminated arrays of exactly n chars]";
+    constexpr auto operator()(SArg const& p) const
+    {
+        int const la = slen(p.a), lb = slen(p.b);
+        int n        = p.n < la ? p.n : la;
+        n            = n < lb ? n : lb;
+        switch (n) {
+        case 0: return strncmp_exact<0>(p);
+        case 1: return strncmp_exact<1>(p);
+        case 2: return strncmp_exact<2>(p);
+        default: return strncmp_exact<3>(p);
+        }
+    }
+};
 struct F_strchr {
     static constexpr char const* name = "strchr";
     constexpr auto operator()(SArg const& p) const { return off(p.a, etl::strchr(p.a, p.n)); }
@@ -739,6 +767,7 @@ std::vector<Entry> const& entries()
     EN("strlen", F_strlen, tabSS, ClsSS),
     EN("strcmp", F_strcmp, tabSS, ClsSS),
     EN("strncmp", F_strncmp, tabSN, ClsSN),
+    EN("strncmp[exact]", F_strncmp_exact, tabSN, ClsSN),
     EN("strchr", F_strchr, tabSC, ClsSC),
     EN("strrchr", F_strrchr, tabSC, ClsSC),
     EN("strspn", F_strspn, tabSS, ClsSS),
